@@ -435,6 +435,7 @@ func (msti *MeasurementInfo) UnmarshalBinary(buf []byte) error {
 
 func (msti *MeasurementInfo) clone() *MeasurementInfo {
 	other := &MeasurementInfo{}
+	other.ID = msti.ID
 	other.Name = msti.Name
 	other.originName = msti.originName
 	other.InitNumOfShards = msti.InitNumOfShards
@@ -445,12 +446,11 @@ func (msti *MeasurementInfo) clone() *MeasurementInfo {
 
 	other.Schema = msti.CloneSchema()
 	other.ShardIdexes = msti.CloneShardIdexes()
-	if msti.ShardKeys == nil {
-		return other
-	}
-	other.ShardKeys = make([]ShardKeyInfo, len(msti.ShardKeys))
-	for i := range msti.ShardKeys {
-		other.ShardKeys[i] = msti.ShardKeys[i].clone()
+	if msti.ShardKeys != nil {
+		other.ShardKeys = make([]ShardKeyInfo, len(msti.ShardKeys))
+		for i := range msti.ShardKeys {
+			other.ShardKeys[i] = msti.ShardKeys[i].clone()
+		}
 	}
 	if msti.ColStoreInfo != nil {
 		colStoreInfo := *msti.ColStoreInfo
